@@ -8,8 +8,9 @@ import UralModel.Model.C06Netloc
 1. `url = url.lower()`;
 2. `normalize_url(url, query_item_filter=lang_query_item_filter, unsplit=False,
    platform_aware=…, lowercase=True)` — the whole-string model `normalizeUrlStringSplit` with the
-   options `fpOpts` (an unparseable URL makes `normalize_url` return the *string*: unpacking it
-   raises `ValueError`, or `AttributeError` on `.username` when it has exactly five characters);
+   options `fpOpts`; an unparseable URL makes `normalize_url` return the *string* it was given
+   (`url.lower()`), and `fingerprint_url` returns it as it is under both `unsplit`
+   (`if not isinstance(splitted, SplitResult): return splitted`, FX-C07-FPTOTAL);
 3. `.username .password .hostname .port` of that `SplitResult`, read from the netloc
    `normalize_url` assembled — the hand model `pyNetlocAcc` of `Model/C06Netloc.lean`;
 4. `strip_lang_subdomains_from_hostname`, and under `strip_suffix` `split_suffix` through the
@@ -27,14 +28,14 @@ open Ural.Py Ural.UrlParts Ural.Normalize
 
 /-- `fingerprint_url(url, unsplit=False, strip_suffix, platform_aware)` on a string -/
 def fingerprintUrlStringSplit (puny : Str → Str) (platform : Str → Str) (trie : SNode Str)
-    (stripSfx : Bool) (url : Str) : Except Err Split :=
+    (stripSfx : Bool) (url : Str) : Except Err (Str ⊕ Split) :=
   -- line 73
   let url := lower url
   -- lines 75-81
   match normalizeUrlStringSplit puny platform fpOpts true url with
   | .inl s =>
-    -- line 83: `scheme, netloc, path, query, fragment = splitted` on a `str`
-    if s.length = 5 then .error .attributeError else .error .valueError
+    -- `if not isinstance(splitted, SplitResult): return splitted`
+    .ok (.inl s)
   | .inr splitted =>
     -- lines 84-89
     match pyNetlocAcc splitted.netloc with
@@ -60,17 +61,17 @@ def fingerprintUrlStringSplit (puny : Str → Str) (platform : Str → Str) (tri
       | .error e => .error e
       | .ok h =>
         -- lines 102-112
-        .ok { scheme := [], netloc := unsplitNetloc a.username a.password h none,
-              path := lower splitted.path, query := lower splitted.query,
-              fragment := splitted.fragment.map lower }
+        let result : Split :=
+          { scheme := [], netloc := unsplitNetloc a.username a.password h none,
+            path := lower splitted.path, query := lower splitted.query,
+            fragment := splitted.fragment.map lower }
+        .ok (.inr result)
 
 /-- `fingerprint_url(url, strip_suffix, platform_aware)` on a string -/
 def fingerprintUrlString (puny : Str → Str) (platform : Str → Str) (trie : SNode Str)
     (stripSfx : Bool) (url : Str) : Except Err Str :=
-  (fingerprintUrlStringSplit puny platform trie stripSfx url).map fun r =>
-    -- lines 117-122
-    let s := urlunsplit r
-    if startsWith s ['/', '/'] then s.drop 2 else s
+  -- lines 117-122 (`fpUnsplit`)
+  (fingerprintUrlStringSplit puny platform trie stripSfx url).map fpUnsplit
 
 /-- the environment of the whole-string model: modelled parser, hand models of the accessors /
 of the walk start, regenerated ISO table -/
@@ -97,7 +98,7 @@ theorem fingerprintUrlStringSplit_eq (puny : Str → Str) (platform : Str → St
       | some h =>
         simp only
         by_cases he : h.isEmpty = true
-        · simp [he]
+        · simp [he, Except.map]
         · simp only [he, Bool.false_eq_true, if_false]
           cases stripSfx with
           | false => simp [Except.map]
